@@ -1,11 +1,311 @@
-/- C15 — executable model (stub; filled in by the property's owner). -/
-import Mahotas.Model.Border
-import Mahotas.Model.DType
+/-
+C15 — thinning (`thin.py`, `_thin.cpp`), Euler number (`euler.py`), convex hull
+(`_convex.cpp`, `polygon.py`).  Executable model + the statement's predicates (specification).
+The templates and look-up tables come from `Generated/Tables.lean` (extracted from the sources).
+-/
+import Mahotas.Model.Basic
+import Mahotas.Generated.Tables
 namespace Mahotas.C15
 open Mahotas
 
+/-! ## binary images -/
+
+/-- a 2-D binary image, row major; every read outside the box is `false` -/
+structure Bin where
+  rows : Nat
+  cols : Nat
+  data : Array Bool
+
+namespace Bin
+
+def get (b : Bin) (y x : Int) : Bool :=
+  if 0 ≤ y ∧ y < (b.rows : Int) ∧ 0 ≤ x ∧ x < (b.cols : Int) then
+    b.data.getD (y.toNat * b.cols + x.toNat) false
+  else false
+
+/-- the image with pixel `(y, x)` equal to `f y x` -/
+def tabulate (rows cols : Nat) (f : Int → Int → Bool) : Bin :=
+  { rows := rows, cols := cols,
+    data := Array.ofFn (n := rows * cols) fun i => f ((i.val / cols : Nat) : Int) ((i.val % cols : Nat) : Int) }
+
+/-- number of set pixels -/
+def count (b : Bin) : Nat := (b.data.toList.filter id).length
+
+def ofInts (rows cols : Nat) (d : List Int) : Bin :=
+  { rows := rows, cols := cols, data := (d.map (· != 0)).toArray }
+
+def toInts (b : Bin) : List Int := b.data.toList.map fun v => if v then 1 else 0
+
+end Bin
+
+/-! ## thinning -/
+
+/-- a hit-or-miss element: (row offset, column offset, required value) -/
+abbrev Elem := List (Int × Int × Bool)
+
+/-- `match` of `_thin.cpp`: the pixel is set and every listed neighbour has the required value.
+    The C code reads through raw pointer offsets inside the zero-framed buffer; a frame pixel is
+    never set, so it returns before any read — reading `false` outside the box is the same function. -/
+def matchElem (b : Bin) (e : Elem) (y x : Int) : Bool :=
+  b.get y x && e.all fun t => b.get (y + t.1) (x + t.2.1) == t.2.2
+
+/-- one pass: `fast_hitmiss` into the buffer, then every matching pixel is cleared (in parallel) -/
+def pass (b : Bin) (e : Elem) : Bin :=
+  Bin.tabulate b.rows b.cols fun y x => b.get y x && !matchElem b e y x
+
+/-- one iteration of the outer loop: the eight passes in the order of `elems[0..8)` -/
+def iter (b : Bin) : Bin := Generated.thinElems.foldl pass b
+
+/-- the outer loop `while (any_change && …)`: `any_change` is set iff some pass cleared a pixel,
+    i.e. iff the iteration changed the image (pixels are only ever cleared). -/
+def thinLoop : Nat → Bin → Bin
+  | 0, b => b
+  | fuel + 1, b =>
+    let b' := iter b
+    if b'.data == b.data then b' else thinLoop fuel b'
+
+/-- `_thin.thin(image, buffer, max_iter)`. An iteration that changes something clears at least one
+    pixel, so `count + 1` iterations always reach the fixed point (`max_iter < 0`). -/
+def thinCore (b : Bin) (maxIter : Int) : Bin :=
+  let full := b.count + 1
+  thinLoop (if maxIter < 0 then full else min full maxIter.toNat) b
+
+/-- `bbox` of a 2-D image: `(min0, max0, min1, max1)`, all zero for an empty image -/
+def bbox (b : Bin) : Nat × Nat × Nat × Nat :=
+  let ys := (List.range b.rows).filter fun (y : Nat) => (List.range b.cols).any fun (x : Nat) => b.get (y : Int) (x : Int)
+  let xs := (List.range b.cols).filter fun (x : Nat) => (List.range b.rows).any fun (y : Nat) => b.get (y : Int) (x : Int)
+  match ys, xs with
+  | y0 :: _, x0 :: _ => (y0, ys.getLastD y0 + 1, x0, xs.getLastD x0 + 1)
+  | _, _ => (0, 0, 0, 0)
+
+/-- `mahotas.thin`: crop to the bounding box, add a zero frame, thin, paste back -/
+def thinModel (b : Bin) (maxIter : Int := -1) : Bin :=
+  let (min0, max0, min1, max1) := bbox b
+  let r := max0 - min0
+  let c := max1 - min1
+  let exp := Bin.tabulate (r + 2) (c + 2) fun y x =>
+    decide (1 ≤ y) && decide (y ≤ r) && decide (1 ≤ x) && decide (x ≤ c) && b.get (y - 1 + min0) (x - 1 + min1)
+  let t := thinCore exp maxIter
+  Bin.tabulate b.rows b.cols fun y x =>
+    decide ((min0 : Int) ≤ y) && decide (y < max0) && decide ((min1 : Int) ≤ x) && decide (x < max1) &&
+      t.get (y - min0 + 1) (x - min1 + 1)
+
+/-! ## connected components (flood fill; the counting oracle of the statement) -/
+
+def neigh (conn8 : Bool) : List (Int × Int) :=
+  if conn8 then [(-1, -1), (-1, 0), (-1, 1), (0, -1), (0, 1), (1, -1), (1, 0), (1, 1)]
+  else [(-1, 0), (0, -1), (0, 1), (1, 0)]
+
+/-- flood from the stack through `mask`; returns the visited set and whether the border was touched.
+    A pixel is marked when pushed, so `rows * cols + 1` steps always empty the stack. -/
+def flood (rows cols : Nat) (mask : Array Bool) (conn8 : Bool) :
+    Nat → List Nat → Array Bool → Bool → Array Bool × Bool
+  | 0, _, seen, tb => (seen, tb)
+  | _, [], seen, tb => (seen, tb)
+  | fuel + 1, i :: st, seen, tb =>
+    let y : Int := ((i / cols : Nat) : Int)
+    let x : Int := ((i % cols : Nat) : Int)
+    let tb := tb || y == 0 || x == 0 || y == (rows : Int) - 1 || x == (cols : Int) - 1
+    let r := (neigh conn8).foldl (fun (acc : List Nat × Array Bool) d =>
+        let yy := y + d.1
+        let xx := x + d.2
+        if 0 ≤ yy ∧ yy < (rows : Int) ∧ 0 ≤ xx ∧ xx < (cols : Int) then
+          let j := yy.toNat * cols + xx.toNat
+          if mask.getD j false && !acc.2.getD j true then (j :: acc.1, acc.2.setIfInBounds j true) else acc
+        else acc) (st, seen)
+    flood rows cols mask conn8 fuel r.1 r.2 tb
+
+/-- (number of components of `mask`, number of those that touch the image border) -/
+def countComps (rows cols : Nat) (mask : Array Bool) (conn8 : Bool) : Nat × Nat :=
+  let n := rows * cols
+  let r := (List.range n).foldl (fun (acc : Array Bool × Nat × Nat) i =>
+      if mask.getD i false && !acc.1.getD i true then
+        let (seen, tb) := flood rows cols mask conn8 (n + 1) [i] (acc.1.setIfInBounds i true) false
+        (seen, acc.2.1 + 1, acc.2.2 + (if tb then 1 else 0))
+      else acc) (Array.replicate n false, 0, 0)
+  (r.2.1, r.2.2)
+
+/-- number of `conn`-connected components of the foreground -/
+def components (b : Bin) (conn8 : Bool) : Nat := (countComps b.rows b.cols b.data conn8).1
+
+/-- number of holes: components of the background (in the connectivity `conn8`) that do not touch the border -/
+def holes (b : Bin) (conn8 : Bool) : Nat :=
+  let r := countComps b.rows b.cols (b.data.map (!·)) conn8
+  r.1 - r.2
+
+/-- the statement's Euler number: components minus holes with the 8/4 (or 4/8) pairing -/
+def eulerSpec (b : Bin) (conn8 : Bool) : Int :=
+  (components b conn8 : Int) - (holes b (!conn8) : Int)
+
+/-! ## Euler number by bit quads -/
+
+/-- table index of the 2×2 window whose top-left pixel is `(y, x)`: `Σ _powers[i][j] · f[y+i, x+j]` -/
+def quadCode (b : Bin) (y x : Int) : Nat :=
+  ((Generated.eulerPowers.zipIdx.map fun (row, i) =>
+      (row.zipIdx.map fun (w, j) => if b.get (y + (i : Int)) (x + (j : Int)) then w else 0).foldl (· + ·) 0)).foldl (· + ·) 0
+
+/-- `euler(f, n)` in the default mode, times `eulerDen` (= 4): the look-up summed over every 2×2
+    window that meets the image (top-left corner from `(-1, -1)` to `(rows-1, cols-1)`), reading
+    background outside — the repaired code pads one background row/column so that the windows
+    straddling the bottom and right borders are visited too. -/
+def eulerModel4 (b : Bin) (conn8 : Bool) : Int :=
+  let tbl := if conn8 then Generated.eulerLookup8 else Generated.eulerLookup4
+  ((List.range (b.rows + 1)).map fun (i : Nat) =>
+    ((List.range (b.cols + 1)).map fun (j : Nat) =>
+      tbl.getD (quadCode b ((i : Int) - 1) ((j : Int) - 1)) 0).foldl (· + ·) 0).foldl (· + ·) 0
+
+/-- the pinned (unrepaired) behaviour: only windows whose bottom-right pixel lies in the image -/
+def eulerPinned4 (b : Bin) (conn8 : Bool) : Int :=
+  let tbl := if conn8 then Generated.eulerLookup8 else Generated.eulerLookup4
+  ((List.range b.rows).map fun (i : Nat) =>
+    ((List.range b.cols).map fun (j : Nat) =>
+      tbl.getD (quadCode b ((i : Int) - 1) ((j : Int) - 1)) 0).foldl (· + ·) 0).foldl (· + ·) 0
+
+/-- Gray's bit-quad weights (times 4): +1 for one set pixel, −1 for three, ∓2 for a diagonal pair -/
+def grayQuad (conn8 : Bool) (a b c d : Bool) : Int :=
+  let n := a.toNat + b.toNat + c.toNat + d.toNat
+  if n = 1 then 1 else if n = 3 then -1
+  else if n = 2 ∧ a = d ∧ b = c then (if conn8 then -2 else 2) else 0
+
+/-! ## convex hull (`_convex.cpp`) -/
+
+abbrev Pt := Int × Int
+
+def isLeft (p0 p1 p2 : Pt) : Int :=
+  (p1.1 - p0.1) * (p2.2 - p0.2) - (p2.1 - p0.1) * (p1.2 - p0.2)
+
+def forwardCmp (a b : Pt) : Bool := if a.1 == b.1 then a.2 < b.2 else a.1 < b.1
+def reverseCmp (a b : Pt) : Bool := if a.1 == b.1 then a.2 > b.2 else a.1 > b.1
+
+/-- `while (h >= 2 && isLeft(P[h-2], P[h-1], P[i]) >= 0) --h;` -/
+def popWhile (P : Array Pt) (pi : Pt) : Nat → Nat
+  | h + 2 => if isLeft (P.getD h (0, 0)) (P.getD (h + 1) (0, 0)) pi ≥ 0 then popWhile P pi (h + 1) else h + 2
+  | h => h
+
+/-- `inPlaceScan(P, N, reverse)` on a stand-alone array (the points are distinct, so the sorted
+    order is unique and `std::sort` is determined) -/
+def inPlaceScan (P : Array Pt) (reverse : Bool) : Array Pt × Nat :=
+  let sorted := (P.toList.mergeSort fun a b => a == b || (if reverse then reverseCmp a b else forwardCmp a b)).toArray
+  (List.range' 1 (sorted.size - 1)).foldl (fun (acc : Array Pt × Nat) i =>
+      let h := popWhile acc.1 (acc.1.getD i (0, 0)) acc.2
+      (acc.1.swapIfInBounds h i, h + 1)) (sorted, 1)
+
+/-- `inPlaceGraham`: the hull corners, in the order the code returns them -/
+def grahamModel (pts : List Pt) : List Pt :=
+  let N := pts.length
+  if N ≤ 3 then pts else
+  let (P, h) := inPlaceScan pts.toArray false
+  -- for (i = 0; i != h-1; ++i) swap(P[i], P[i+1]): rotate the first h entries left by one
+  let P := (List.range (h - 1)).foldl (fun (P : Array Pt) i => P.swapIfInBounds i (i + 1)) P
+  let (Q, h') := inPlaceScan (P.extract (h - 2) N) true
+  (P.extract 0 (h - 2)).toList ++ (Q.extract 0 h').toList
+
+/-- foreground pixels in scan order, as `(y, x)` -/
+def foreground (b : Bin) : List Pt :=
+  (List.range (b.rows * b.cols)).filterMap fun i =>
+    if b.data.getD i false then some (((i / b.cols : Nat) : Int), ((i % b.cols : Nat) : Int)) else none
+
+def hullModel (b : Bin) : List Pt := grahamModel (foreground b)
+
+def cyclicPairs (v : List Pt) : List (Pt × Pt) :=
+  match v with
+  | [] => []
+  | a :: _ => v.zip (v.drop 1 ++ [a])
+
+def lexMin (l : List Pt) : Option Pt := l.foldl (fun m p => match m with
+  | none => some p | some q => if forwardCmp p q then some p else some q) none
+def lexMax (l : List Pt) : Option Pt := l.foldl (fun m p => match m with
+  | none => some p | some q => if forwardCmp q p then some p else some q) none
+
+/-- the statement's predicate on a returned corner list `v` for foreground `fg`:
+    corners are foreground pixels, pairwise distinct; every foreground pixel (hence every corner:
+    convex position, collinear corners allowed) lies on one and the same side of — or on — every
+    directed edge of the closed polygon; the lexicographically extreme pixels are corners (this
+    pins down the degenerate polygon when all pixels are collinear). -/
+def hullOK (fg v : List Pt) : Bool :=
+  v.all (fun p => fg.contains p) &&
+  v.eraseDups.length == v.length &&
+  (fg.isEmpty == v.isEmpty) &&
+  ((cyclicPairs v).all (fun e => fg.all fun p => isLeft e.1 e.2 p ≤ 0) ||
+   (cyclicPairs v).all (fun e => fg.all fun p => isLeft e.1 e.2 p ≥ 0)) &&
+  (match lexMin fg, lexMax fg with
+   | some a, some z => v.contains a && v.contains z
+   | _, _ => true)
+
+/-! ## `fill_polygon` / `fill_convexhull` (`polygon.py`) -/
+
+/-- crossing abscissae of scan line `y` with the closed polygon (`nodes` of `fill_polygon`), in
+    the float arithmetic of the Python code: `p[1] + (y-p[0])/(pj[0]-p[0])*(pj[1]-p[1])` -/
+def rowNodes (poly : List (Float × Float)) (y : Float) : List Float :=
+  match poly.getLast? with
+  | none => []
+  | some last =>
+    (poly.zip (last :: poly)).filterMap fun (p, pj) =>
+      if (p.1 < y && pj.1 >= y) || (pj.1 < y && p.1 >= y) then
+        some (p.2 + (y - p.1) / (pj.1 - p.1) * (pj.2 - p.2))
+      else none
+
+/-- `zip(nodes[::2], nodes[1::2])` -/
+def pairUp : List Float → List (Float × Float)
+  | a :: b :: rest => (a, b) :: pairUp rest
+  | _ => []
+
+/-- `int(v)` for the non-negative abscissae that occur -/
+def truncNat (v : Float) : Nat := v.floor.toUInt64.toNat
+
+/-- pixel `(y, x)` is painted by `fill_polygon(poly, canvas)` on a canvas with `rows` rows -/
+def polyFilled (rows : Nat) (poly : List Pt) (y x : Int) : Bool :=
+  match poly with
+  | [] => false
+  | p0 :: _ =>
+    let minY := poly.foldl (fun m p => min m p.1) p0.1
+    let maxY := poly.foldl (fun m p => max m p.1) p0.1
+    let maxY := if maxY < (rows : Int) then maxY + 1 else maxY
+    decide (minY ≤ y) && decide (y < maxY) && decide (0 ≤ x) &&
+      (pairUp ((rowNodes (poly.map fun p => (Float.ofInt p.1, Float.ofInt p.2)) (Float.ofInt y)).mergeSort
+          fun a b => a ≤ b)).any fun (n, nn) =>
+        decide ((truncNat n : Int) ≤ x) && decide (x < (truncNat (nn + 1) : Int))
+
+/-- `fill_convexhull(bwimg)` for a boolean image: the filled hull polygon, then `canvas[bwimg] = 1` -/
+def fillHullModel (b : Bin) : Bin :=
+  let poly := hullModel b
+  Bin.tabulate b.rows b.cols fun y x => polyFilled b.rows poly y x || b.get y x
+
+/-! ## driver entry -/
+
+def flatPts (v : List Pt) : List Int := v.flatMap fun p => [p.1, p.2]
+
+def unflatPts : List Int → List Pt
+  | a :: b :: rest => (a, b) :: unflatPts rest
+  | _ => []
+
+def subsetB (a b : Bin) : Bool :=
+  (List.range a.data.size).all fun i => !a.data.getD i false || b.data.getD i false
+
 def handle (a : Args) : String :=
+  let shape := a.nats "shape"
+  let rows := shape.headD 0
+  let cols := shape.getD 1 0
+  let b := Bin.ofInts rows cols (a.ints "data")
   match a.str "kind" with
+  | "thin" =>
+    let m := thinModel b (a.int "maxiter" (-1))
+    let base := s!"model={showInts m.toInts} nin={components b true}"
+    if a.has "got" then
+      let g := Bin.ofInts rows cols (a.ints "got")
+      base ++ s!" nout={components g true} subset={if subsetB g b then 1 else 0}"
+    else base
+  | "euler" =>
+    s!"m8={eulerModel4 b true} m4={eulerModel4 b false} p8={eulerPinned4 b true} p4={eulerPinned4 b false} " ++
+    s!"den={Generated.eulerDen} spec8={eulerSpec b true} spec4={eulerSpec b false} " ++
+    s!"c8={components b true} c4={components b false} h4={holes b false} h8={holes b true}"
+  | "hull" =>
+    let fg := foreground b
+    let m := grahamModel fg
+    let base := s!"model={showInts (flatPts m)} modelok={if hullOK fg m then 1 else 0} fill={showInts (fillHullModel b).toInts}"
+    if a.has "got" then
+      base ++ s!" ok={if hullOK fg (unflatPts (a.ints "got")) then 1 else 0}"
+    else base
   | k => s!"error=unknown-kind-{k}"
 
 end Mahotas.C15
